@@ -4,7 +4,7 @@
    known q h = bits [0,8q] and [57,63] of h = what a bucket keeps next to an element of class q. *)
 From Coq Require Import ZArith List.
 From MomoCommon Require Import GenPrelude.
-From C12 Require Gen_Base Gen_O2 Gen_O2MP Gen_P4 Gen_One Known P4_Model P4_Slot P4_Bucket O2_Slot Chain O2_Bucket MP_Open2N2 TableO2 TableO2_Proofs TableP4 TableP4_Proofs TableOne TableOne_Proofs Refuted.
+From C12 Require Gen_Base Gen_O2 Gen_O2MP Gen_P4 Gen_One Known P4_Model P4_Slot P4_Bucket O2_Slot Chain O2_Bucket MP_Open2N2 TableO2 TableO2_Proofs TableP4 TableP4_Proofs TableOne TableOne_Proofs Refuted TableO2_Find SameCode Gen_O2set.
 Import ListNotations.
 Local Open Scope Z_scope.
 
@@ -572,3 +572,81 @@ Theorem C12_seedB_remove_guard_refuted :
   Gen_P4.GetHashCodePart 4 sO 999 3 4 6 8 0 = 999.
 Proof. exact Refuted.seedB_refuted. Qed.
 Print Assumptions C12_seedB_remove_guard_refuted.
+
+(* ---------------------------------------------------------------------------------------------------------------
+   Model-growth round: HashSet::pvFind over the GENERATED BucketOpen2N2::Find; frame conditions of every bucket operation. *)
+
+(* the generated Bucket::Find returns the first of slots 0,1,2 whose short hash equals the code's short hash and whose key
+   matches, the null iterator otherwise *)
+Theorem C12_open2n2_bucket_find_spec :
+  forall b key h, exists r, TableO2.bucket_find b key h = Ok r /\
+    ((r = 0 /\ forall i, 0 <= i < 3 -> ~ (TableO2.bsh b i = Gen_O2.pvCalcShortHash h /\ TableO2.bky b i = key)) \/
+     (1 <= r <= 3 /\ TableO2.bsh b (r - 1) = Gen_O2.pvCalcShortHash h /\ TableO2.bky b (r - 1) = key)).
+Proof. exact TableO2_Find.bucket_find_spec. Qed.
+Print Assumptions C12_open2n2_bucket_find_spec.
+
+(* the modelled HashSet::Find (start bucket, then probes 1..GetMaxProbe(start) while WasFull, generated leaves) returns a slot
+   holding the key, for EVERY key present in a table satisfying the invariant ... *)
+Theorem C12_open2n2_find_returns_every_present_key :
+  forall hash L t key, 0 <= L <= 63 -> TableO2_Proofs.Tinv hash L t -> TableO2_Proofs.Present L t key ->
+    exists r, TableO2.find t L key (hash key) = Ok r /\ TableO2_Find.hit hash L t key r.
+Proof. exact TableO2_Find.find_present. Qed.
+Print Assumptions C12_open2n2_find_returns_every_present_key.
+
+(* ... hence after migrating every element with reconstructed codes, Find returns every key of the old table: the property's
+   first sentence as a statement about the search procedure itself *)
+Theorem C12_open2n2_find_after_growth :
+  forall hash, (forall k, 0 <= hash k < 2 ^ 64) ->
+  forall L newL told, 0 <= L -> L < newL <= 63 -> TableO2_Proofs.Tinv hash L told ->
+    match TableO2.migrate hash told L newL with
+    | Ok (_, tnew) => forall k, TableO2_Proofs.Present L told k ->
+                        exists r, TableO2.find tnew newL k (hash k) = Ok r /\ TableO2_Find.hit hash newL tnew k r
+    | Exn => True
+    | _ => False
+    end.
+Proof. exact TableO2_Find.migrate_find. Qed.
+Print Assumptions C12_open2n2_find_after_growth.
+
+(* FRAME: every BucketOpen2N2 operation that writes mState / shortHashes / hashProbes, about the generated functions *)
+Theorem C12_open2n2_addcrt_frame :
+  forall st sh hp x L probe it, MP_Open2N2.enc_inv st -> 0 <= L <= 63 -> 0 <= probe < 2 ^ 64 -> Gen_O2.pvGetCount st sh hp < 3 ->
+    exists st' sh' hp', Gen_O2.AddCrt st sh hp x L probe it = Ok (tt, st', sh', hp') /\
+      MP_Open2N2.enc_inv st' /\ MP_Open2N2.decode st' = MP_Open2N2.decode st /\ st' 0 = st 0 /\
+      Gen_O2.pvGetCount st' sh' hp' = Gen_O2.pvGetCount st sh hp + 1 /\
+      (forall i, i <> 2 - Gen_O2.pvGetCount st sh hp -> sh' i = sh i /\ hp' i = hp i).
+Proof. exact TableO2_Find.o2_addcrt_frame. Qed.
+Print Assumptions C12_open2n2_addcrt_frame.
+
+Theorem C12_open2n2_remove_frame :
+  forall st sh hp idx, MP_Open2N2.enc_inv st -> 3 - Gen_O2.pvGetCount st sh hp <= idx <= 2 ->
+    exists st' sh' hp', Gen_O2.Remove st sh hp idx = Ok (tt, st', sh', hp') /\
+      MP_Open2N2.enc_inv st' /\ MP_Open2N2.decode st' = MP_Open2N2.decode st /\ st' 0 = st 0 /\
+      Gen_O2.pvGetCount st' sh' hp' = Gen_O2.pvGetCount st sh hp - 1 /\
+      (forall i, i <> idx -> i <> 3 - Gen_O2.pvGetCount st sh hp -> sh' i = sh i /\ hp' i = hp i).
+Proof. exact TableO2_Find.o2_remove_frame. Qed.
+Print Assumptions C12_open2n2_remove_frame.
+
+Theorem C12_open2n2_updatemaxprobe_frame :
+  forall st sh hp probe, MP_Open2N2.enc_inv st -> 0 <= probe <= 2 ^ 63 ->
+    exists st', Gen_O2MP.UpdateMaxProbe st probe = Ok (tt, st') /\ MP_Open2N2.enc_inv st' /\ probe <= MP_Open2N2.decode st' /\
+      MP_Open2N2.decode st <= MP_Open2N2.decode st' /\ Gen_O2.pvGetCount st' sh hp = Gen_O2.pvGetCount st sh hp.
+Proof. exact TableO2_Find.o2_updatemaxprobe_frame. Qed.
+Print Assumptions C12_open2n2_updatemaxprobe_frame.
+
+Theorem C12_open2n2_clear_frame :
+  forall st sh hp,
+    let '(st', sh') := Gen_O2.Clear st sh hp in
+    MP_Open2N2.enc_inv st' /\ MP_Open2N2.decode st' = 0 /\ Gen_O2.pvGetCount st' sh' hp = 0 /\ (forall i, 0 <= i < 3 -> sh' i = 128) /\
+    Gen_O2.IsFull st' sh' hp = false.
+Proof. exact TableO2_Find.o2_clear_frame. Qed.
+Print Assumptions C12_open2n2_clear_frame.
+
+(* same code: the class the real HashSet selects (HashBucketOpen8 + slow-hash key, instantiated through the container) *)
+Theorem C12_open8_selected_bucket_same_code :
+  Gen_O2set.pvGetCount = Gen_O2.pvGetCount /\ Gen_O2set.pvSetEmpty = Gen_O2.pvSetEmpty /\ Gen_O2set.Clear = Gen_O2.Clear /\
+  Gen_O2set.pvCalcShortHash = Gen_O2.pvCalcShortHash /\ Gen_O2set.pvGetProbeShift = Gen_O2.pvGetProbeShift /\
+  Gen_O2set.IsFull = Gen_O2.IsFull /\ Gen_O2set.WasFull = Gen_O2.WasFull /\ Gen_O2set.Find = Gen_O2.Find /\
+  Gen_O2set.AddCrt = Gen_O2.AddCrt /\ Gen_O2set.Remove = Gen_O2.Remove /\ Gen_O2set.GetHashCodePart = Gen_O2.GetHashCodePart /\
+  Gen_O2set.GetNextBucketIndex = Gen_O2.GetNextBucketIndex.
+Proof. exact SameCode.open8_selected_bucket_same_code. Qed.
+Print Assumptions C12_open8_selected_bucket_same_code.
